@@ -411,6 +411,23 @@ func init() {
 		us = append(us, core.Unit{Name: "short", Weight: 5, Run: func(c *core.Ctx) {
 			c.Do(&core.Case{Oracle: "short", Target: "nas.Message"})
 		}})
+		if sp, err := codecSpec(); err == nil {
+			// legal messages whose size walks across 2^16: routing depends on two octets only
+			us = append(us, bigUnits(dispatchable(sp), tier, 60, func(c *core.Ctx, d *domainPDU, i int) {
+				ep := int64(epPlain)
+				if i%2 == 1 {
+					ep = epGmm
+					if d.Def.Family == "GSM" {
+						ep = epGsm
+					}
+				}
+				k := &core.Case{Oracle: "one", Target: "nas.Message." + epNames[ep], B: [][]byte{d.B}, I: []int64{ep, 1}}
+				c.Do(k)
+				if i%4 == 0 {
+					c.NonTrivial(k.Hash())
+				}
+			})...)
+		}
 		us = append(us, core.Unit{Name: "encode", Weight: 5, Run: func(c *core.Ctx) {
 			c.Do(&core.Case{Oracle: "encode", Target: "nas.Message"})
 		}})
